@@ -351,3 +351,26 @@ class F11EmptyWriteUsesRereadGeneration(ReproBase):
         self.assertEqual(409, rb.status_int)
         allocs = real(self.context, c)
         self.assertEqual([3], [a.used for a in allocs])
+
+
+class F14ResourcelessGroupInTree(ReproBase):
+    """C03: in_tree<S> of a request group without resources (1.36+, with
+    same_subtree) was ignored by the single-provider path: candidates whose
+    provider for that group lies outside the named tree were returned."""
+
+    def test_in_tree_restricts_resourceless_group(self):
+        cn1 = self._create_provider('cn1')
+        tb.add_inventory(cn1, 'VCPU', 8)
+        c1 = self._create_provider('c1', parent=cn1.uuid)
+        tb.set_traits(c1, 'CUSTOM_FOO')
+        cn2 = self._create_provider('cn2')
+        tb.add_inventory(cn2, 'VCPU', 8)
+        c2 = self._create_provider('c2', parent=cn2.uuid)
+        tb.set_traits(c2, 'CUSTOM_FOO')
+        r = self.call('GET', '/allocation_candidates?resources_A=VCPU:1'
+                      '&required_B=CUSTOM_FOO&in_tree_B=%s'
+                      '&same_subtree=_A,_B&group_policy=none' % cn2.uuid)
+        self.assertEqual(200, r.status_int, r.text)
+        got = sorted(tuple(sorted(ar['mappings']['_B']))
+                     for ar in json.loads(r.text)['allocation_requests'])
+        self.assertEqual([(c2.uuid,)], got)
